@@ -68,8 +68,11 @@ func (s *Imports) Reserve(path string, aliases ...string) (string, error) {
 		return "", errors.New("ambient import already exists")
 	}
 
-	if alias := s.findByAlias(alias); alias != nil {
-		return "", errors.New("ambient import collides on an alias")
+	// any number of blank and dot imports may coexist
+	if alias != "_" && alias != "." {
+		if alias := s.findByAlias(alias); alias != nil {
+			return "", errors.New("ambient import collides on an alias")
+		}
 	}
 
 	s.imports = append(s.imports, &Import{
